@@ -19,34 +19,12 @@ def validate_asm(ctx, shards, mode, module="AsmTrace", heap="4g"):
     return rej, nomeaning
 
 
-GEN_INFO = {}      # shard path -> (cmd, args) that produced it (deterministic in the seed)
-
-
 def gen_asm(ctx, cmd, args, name):
     d = ctx.sub(name)
     prefix = os.path.join(d, "a")
     stats = ctx.harness_json([cmd, "-out", prefix, "-seed", ctx.seed] + args)
-    for f in shard_files(prefix):
-        GEN_INFO[f] = (cmd, [str(a) for a in args], ctx.seed)
+    register_shards(shard_files(prefix), cmd, args, ctx.seed)
     return shard_files(prefix), stats
-
-
-def rerun_in_context(ctx, shard, idx, mode, module, n):
-    """A rejection that does not reproduce in isolation may depend on state the code under test carried over from the
-    PRECEDING cases of the same process (a cache, a pool).  Re-run the deterministic generator with the same seed and
-    arguments and validate the same shard again: the same line must be rejected again."""
-    if shard not in GEN_INFO:
-        return None
-    cmd, args, seed = GEN_INFO[shard]
-    d = ctx.sub("rerun%d" % n)
-    prefix = os.path.join(d, "a")
-    ctx.harness_json([cmd, "-out", prefix, "-seed", seed] + args)
-    again = os.path.join(d, os.path.basename(shard))
-    r = ctx.tlc(module, cfg=module + ".cfg", env=dict(VERIF_TRACE=again, VERIF_MODE=mode, VERIF_EXPLAIN="1"), heap="4g")
-    if idx not in r["rejects"] or read_line(again, idx) != read_line(shard, idx):
-        return None
-    return dict(kind="rerun", cmd=cmd, args=args, seed=seed, shard=os.path.basename(shard), line=idx, mode=mode, module=module,
-                event=read_line(again, idx))
 
 
 def render_prog_brief(p):
@@ -118,11 +96,11 @@ def reproduce_asm(ctx, mode, rejects, replay_cmd="prog-replay", cap=25, sigfn=as
 
 def replay_rerun(ctx, payload):
     d = ctx.sub("replay")
-    prefix = os.path.join(d, "a")
+    prefix = os.path.join(d, payload["shard"].split(".")[0])
     ctx.harness_json([payload["cmd"], "-out", prefix, "-seed", payload["seed"]] + payload["args"])
     again = os.path.join(d, payload["shard"])
     module = payload["module"]
-    r = ctx.tlc(module, cfg=module + ".cfg", env=dict(VERIF_TRACE=again, VERIF_MODE=payload["mode"]), heap="4g")
+    r = ctx.tlc(module, cfg=payload.get("cfg") or module + ".cfg", env=dict(VERIF_TRACE=again, VERIF_MODE=payload["mode"]), heap="4g")
     ctx.cov["traces_validated_against_impl"] = count_lines(again)
     ctx.cov["evaluations"] = count_lines(again)
     if payload["line"] in r["rejects"]:
